@@ -13,7 +13,7 @@ def sh(*a, **k):
 
 
 def main():
-    ids = sys.argv[1:] or sorted(os.listdir(os.path.join(HERE, "seeded")))
+    ids = sys.argv[1:] or sorted(x for x in os.listdir(os.path.join(HERE, "seeded")) if os.path.isfile(os.path.join(HERE, "seeded", x, "meta.json")))
     if sh("git", "-C", "/repo", "status", "--porcelain", "--untracked-files=no").stdout.strip():
         print("refusing: /repo dirty")
         return 2
